@@ -110,7 +110,14 @@ def scratch_dir() -> str:
     executors as soon as they are consumed."""
     global _SCRATCH
     if _SCRATCH is None or not os.path.isdir(_SCRATCH):
-        _SCRATCH = tempfile.mkdtemp(prefix="verif-snap-")
+        _SCRATCH = tempfile.mkdtemp(prefix="verif-snap-", dir=os.environ.get("VERIF_SCRATCH_PARENT") or None)
+        import atexit
+        import shutil
+        pid = os.getpid()
+        path = _SCRATCH
+        # forked pool workers leave through os._exit and skip atexit: the runner also sweeps
+        # its workers' directories (VERIF_SCRATCH_PARENT, removed when run_check exits)
+        atexit.register(lambda: os.getpid() == pid and shutil.rmtree(path, ignore_errors=True))
     return _SCRATCH
 
 
